@@ -677,6 +677,7 @@ class RuntimeEngine:
         self.call_if_exists("runtime_event", dyn_ast, iid)
         self.call_if_exists("control_flow_event", dyn_ast, iid)
         self.call_if_exists("function_exit", dyn_ast, iid, name, None)
+        self.call_if_exists("implicit_return", dyn_ast, iid, iid, name, None)
         return
 
     def _return_(self, dyn_ast, iid, function_iid, function_name, return_val=None):
@@ -780,6 +781,7 @@ class RuntimeEngine:
         self.call_if_exists("control_flow_event", dyn_ast, iid)
         self.call_if_exists("exit_control_flow", dyn_ast, iid)
         self.call_if_exists("exit_while", dyn_ast, iid)
+        self.call_if_exists("normal_exit_while", dyn_ast, iid)
 
     def _enter_for_(self, dyn_ast, iid, next_val, iterable):
         self.call_if_exists("runtime_event", dyn_ast, iid)
@@ -801,6 +803,7 @@ class RuntimeEngine:
         self.call_if_exists("control_flow_event", dyn_ast, iid)
         self.call_if_exists("exit_control_flow", dyn_ast, iid)
         self.call_if_exists("exit_for", dyn_ast, iid)
+        self.call_if_exists("normal_exit_for", dyn_ast, iid)
 
     def _gen_(self, dyn_ast, iid, iterator):
         if iterator is None:
